@@ -1,6 +1,7 @@
 import DirectVerif.Gen.C06
 import DirectVerif.Model.MaskGeom
 import DirectVerif.Model.C06Seed
+import DirectVerif.Model.C06Crop
 /-!
 # Bridge C06 — the ACS arithmetic translated from `/repo` equals the hand-written model
 -/
@@ -127,5 +128,11 @@ theorem code_machine {σ Seed : Type} :
   have h1 : SeedArg.ofTexts tempSeedArgs = .unchanged := by decide
   have h2 : MemoPolicy.ofWrites stateWrites = .none := by decide
   rw [h1, h2]; rfl
+
+/-- `poisson`: the corner crop is applied to the rasterised pattern BEFORE the ACS disc is OR-ed in — the translated
+statement order selects `C06Crop.poissonFrame`, the frame `Props.C06.poisson_crop_acs_subset` is about -/
+theorem poisson_crop_before_disc : C06Crop.frameOfOrder poissonOrder = C06Crop.poissonFrame := by
+  have h : poissonOrder = ["raster", "crop", "disc"] := by decide
+  rw [h]; rfl
 
 end DirectVerif.Bridge.C06
